@@ -257,7 +257,7 @@ def refactors(pids, apply=False):
     if out.strip():
         print("refusing: /repo has local modifications"); return 2
     for pid in pids:
-        for outd in (f"/tmp/seed/{pid}-out3", f"/tmp/seed/{pid}-outR2"):
+        for outd in (f"/tmp/seed/{pid}-out3", f"/tmp/seed/{pid}-outR2", f"/tmp/seed/{pid}-outR3"):
             if not os.path.isdir(outd):
                 continue
             for sub in sorted(os.listdir(outd)):
